@@ -45,7 +45,7 @@ RULE = ('case = (space, representation, object pair | perturbed member pair | ch
         'objects differing in exactly one of type/status/colour, or a perturbed member; distinct by (space, representation, pair).')
 ASSUMPTIONS = ['objects of a space = declared types x all their statuses x declared colours (+ NoneGridObject as held item, + Hidden in observations)']
 EXHAUSTIVE_NOTE = 'all objects of each generated space pairwise (per space exhaustive)'
-REQUIRED = {'quick': {'pairs.objects': 20000, 'neighbours.state': 2000, 'neighbours.observation': 1500, 'positional': 3000,
+REQUIRED = {'quick': {'box_members.pairs': 200, 'pairs.objects': 20000, 'neighbours.state': 2000, 'neighbours.observation': 1500, 'positional': 3000,
                       'agent_marker': 1000, 'default.triple': 1000, 'channels.no_overlap': 50, 'channels.compact': 50,
                       'equal_members': 500, 'mutated_members': 500, 'mutated_members.dynamics': 50, 'spaces.with_custom_types': 10}}
 STATUS_INDEX = {Door.Status.OPEN: 0, Door.Status.CLOSED: 1, Door.Status.LOCKED: 2}
@@ -307,6 +307,59 @@ def mutation_consistency(ctx, spec, name, rep, objs, helds, which, rng, payload,
                               'member_case', payload)
 
 
+def box_members(ctx, n):
+    """members with boxes: the library's equality does not look inside a box, so two members differing only in what their
+    boxes contain are equal - they then have to hash alike (objects, grids, agents holding boxes, whole members) and to have
+    equal representations (observation side: a state space with boxes cannot be represented)"""
+    from gym_gridverse.grid_object import Box, Key, Wall
+    for k in range(n):
+        rng = gen.rng_for('C16box', ctx.seed, ctx.shard, k)
+        vh, vw = rng.randint(1, 4), rng.choice([1, 3, 5])
+        types = [Floor, Wall, Key, Door, Box]
+        colors = [Color.NONE, Color.RED, Color.BLUE]
+        os_ = ObservationSpace(Shape(vh, vw), types, colors)
+        contents = [Floor(), Key(Color.RED), Key(Color.BLUE), Door(Door.Status.OPEN, Color.RED), Door(Door.Status.LOCKED, Color.RED),
+                    Wall(), Box(Key(Color.RED)), Box(Box(Floor()))]
+        base = [[rng.choice([Floor(), Wall(), Key(Color.BLUE), Box(rng.choice(contents))]) for _ in range(vw)] for _ in range(vh)]
+        by, bx = rng.randrange(vh), rng.randrange(vw)
+        rows_a = [[repgen.copy_obj(o) for o in row] for row in base]
+        rows_b = [[repgen.copy_obj(o) for o in row] for row in base]
+        ca, cb = rng.sample(contents, 2)
+        rows_a[by][bx], rows_b[by][bx] = Box(repgen.copy_obj(ca)), Box(repgen.copy_obj(cb))
+        held_a, held_b = (Box(repgen.copy_obj(cb)), Box(repgen.copy_obj(ca))) if k % 2 else (NoneGridObject(), NoneGridObject())
+        for which in ('observation', 'state'):
+            if which == 'observation':
+                a, b = repgen.make_observation(rows_a, (vh, vw), held_a), repgen.make_observation(rows_b, (vh, vw), held_b)
+            else:
+                a = repgen.make_state([[repgen.copy_obj(o) for o in r] for r in rows_a], vh - 1, vw // 2, Orientation.F, repgen.copy_obj(held_a))
+                b = repgen.make_state([[repgen.copy_obj(o) for o in r] for r in rows_b], vh - 1, vw // 2, Orientation.F, repgen.copy_obj(held_b))
+            ctx.ev()
+            ctx.hit('box_members.pairs')
+            payload = {'k': [ctx.seed, ctx.shard, k], 'which': which}
+            pairs = [('member', a, b), ('grid', a.grid, b.grid), ('agent', a.agent, b.agent), ('box', a.grid[by, bx], b.grid[by, bx])]
+            for what, x, y in pairs:
+                try:
+                    eq = bool(x == y) and bool(y == x)
+                    if eq and hash(x) != hash(y):
+                        ctx.violation('faithful', 'hash.equal_objects_hash_differently',
+                                      f'{which} {what}s differing only in the content of a box ({enc.eo(ca)} / {enc.eo(cb)}) are == but '
+                                      f'hash differently', 'box_case', payload)
+                except TypeError:
+                    pass
+            if which == 'observation' and a == b:
+                for name in repgen.NAMES:
+                    ok, rep = call_real(make_observation_representation, name, os_)
+                    if not ok:
+                        continue
+                    ok1, d1 = call_real(rep.convert, a)
+                    ok2, d2 = call_real(rep.convert, b)
+                    if ok1 and ok2 and flat(d1) != flat(d2):
+                        ctx.violation('faithful', 'equal_members.representations_differ',
+                                      f'{name}: observations that are == (they differ only in the content of a box) have different '
+                                      f'representations', 'box_case', payload)
+            ctx.nontrivial(('box', which, enc.es(a), enc.es(b)))
+
+
 def space_case(ctx, types, colors, shape, view, idx):
     h, w = shape
     vh, vw = view
@@ -355,10 +408,15 @@ def run(ctx):
                 ctx.add('spaces_skipped_for_time')
                 continue
             space_case(ctx, types, colors, shape, view, i)
+        box_members(ctx, ctx.pick(150, 3000))
         ctx.extra['exhaustive'] = True
 
 
 def replay(ctx, kind, payload):
+    if kind == 'box_case':
+        ctx.seed, ctx.shard = payload['k'][0], payload['k'][1]
+        box_members(ctx, payload['k'][2] + 1)
+        return
     from .. import custom_objects  # noqa: F401  (registers the custom types named in the payload)
     types = [compose.object_type(n) for n in payload['types']]
     colors = [Color[c] for c in payload['colors']]
